@@ -304,6 +304,7 @@ func prepareRender(c J) (*renderSetup, error) {
 	eng := liquid.NewEngine()
 	rs.snaps = &snapRecorder{byLabel: map[string][]any{}}
 	eng.RegisterTag("lqh_snap", rs.snaps.tag)
+	registerExt(eng)
 	if jbool(c, "strict") {
 		eng.StrictVariables()
 	}
